@@ -522,3 +522,70 @@ func ruleC10R5(c *Ctx) {
 	}
 	c.floor("C10.R5", "LogRewriter implementations", n, 3)
 }
+
+// ---- C10.R6 (delegation, added after seed c10h): the event time is what package time says. The two words of fluentd's
+// EventTime are the seconds and the nanoseconds-within-the-second of the record's timestamp; splitting one UnixNano
+// reading by division is wrong before 1970 (truncating division) and outside the UnixNano range. The words written must be
+// value.Unix() and value.Nanosecond() of the parameter, in that order; anything else fails as UNDECIDED.
+func init() {
+	register("C10", "C10.R6", ruleC10R6)
+}
+
+func ruleC10R6(c *Ctx) {
+	fn := c.P.Fn("output/fluentdforward.EncodeEventTime")
+	var tm ssa.Value
+	for _, p := range fn.Params {
+		if typeName(p.Type()) == "time.Time" {
+			tm = p
+		}
+	}
+	if tm == nil {
+		broken("C10.R6: EncodeEventTime no longer takes a time.Time")
+	}
+	var writes []ssa.CallInstruction
+	for _, s := range callsIn(fn) {
+		if f := s.Common().StaticCallee(); f != nil && relPkg(fnPkgPath(f)) == "output/fastmsgpack" && strings.HasPrefix(f.Name(), "Write") {
+			writes = append(writes, s)
+		}
+	}
+	c.floor("C10.R6", "words written by EncodeEventTime", len(writes), 2)
+	methodOf := func(v ssa.Value) string {
+		for i := 0; i < 4; i++ {
+			v = strip(v)
+			if cv, ok := v.(*ssa.Convert); ok {
+				v = cv.X
+				continue
+			}
+			break
+		}
+		cl, ok := v.(*ssa.Call)
+		if !ok || cl.Common().StaticCallee() == nil || len(cl.Common().Args) == 0 {
+			return ""
+		}
+		recv := resolve(cl.Common().Args[0])
+		if u, ok := recv.(*ssa.UnOp); ok { // a spilled value receiver
+			if al, ok := u.X.(*ssa.Alloc); ok {
+				if sv, ok := singleStore(al); ok {
+					recv = resolve(sv)
+				}
+			}
+		}
+		if recv != tm {
+			return ""
+		}
+		return extName(cl.Common().StaticCallee())
+	}
+	if len(writes) == 2 {
+		// the second word is written at the position the first write returned
+		first, second := writes[0], writes[1]
+		if mentions(first.Common().Args[1], func(v ssa.Value) bool { return v == second.Value() }) {
+			first, second = second, first
+		}
+		okS := methodOf(first.Common().Args[2]) == "(time.Time).Unix"
+		okN := methodOf(second.Common().Args[2]) == "(time.Time).Nanosecond"
+		c.check(okS && okN, "C10.R6", fn, "EventTime = (value.Unix(), value.Nanosecond())", first.Pos(), "both words are delegated to package time",
+			"UNDECIDED (counts as failure): the seconds / nanoseconds words are not value.Unix() and value.Nanosecond() of the record's time — the module splits the instant itself, which this family does not decide (truncating division is wrong before 1970, UnixNano overflows outside 1678..2262)")
+	} else {
+		c.bad("C10.R6", fn, "EventTime = (value.Unix(), value.Nanosecond())", fn.Pos(), "UNDECIDED (counts as failure): expected two words written")
+	}
+}
